@@ -8,7 +8,10 @@
                            agg = Some (A high_hash high_view aggqc_view)
      C blk c l             Store(blk); CommitRule(blk) returned c (hash or nil); lock hash is l
                            afterwards (for Fast-HotStuff, which has no lock, l = 1)
-     S blk                 Store(blk) only *)
+     S blk                 Store(blk) only
+     N blks                the sender's RequestBlock now finds exactly these blocks
+     Q hashes              Blockchain.LocalGet succeeds for exactly these hashes (the store is
+                           one block per hash, so size + membership is equality) *)
 From HS Require Export Base.Prelude Rules.RulesModel.
 Open Scope N_scope.
 
@@ -19,36 +22,45 @@ Definition A (hh hv av : N) : aggqc := mkAgg (mkQC hh hv) av.
 Inductive ev :=
 | V (v : view) (b : block) (agg : option aggqc) (r : bool)
 | C (b : block) (c : option hash) (l : hash)
-| S (b : block).
+| S (b : block)
+| N (net : list block)      (* from now on the peers can supply exactly these blocks *)
+| Q (stored : list hash).   (* LocalGet succeeds for exactly these hashes *)
 
 Definition case := (ruleset * list ev)%type.
 
-Definition obs_eqb (o1 o2 : obs) : bool :=
-  match o1, o2 with
-  | OVote a, OVote b => Bool.eqb a b
-  | OCommit c1 l1, OCommit c2 l2 => option_eqb N.eqb c1 c2 && N.eqb l1 l2
-  | OStore, OStore => true
+Definition stored_eqb (f : store) (hs : list hash) : bool :=
+  Nat.eqb (length f) (length hs) &&
+  forallb (fun h => match get f h with Some _ => true | None => false end) hs.
+
+Definition nobs_ok (e : ev) (o : nobs) : bool :=
+  match e, o with
+  | V _ _ _ r, NOVote r' => Bool.eqb r r'
+  | C _ c l, NOCommit c' l' => option_eqb N.eqb c c' && N.eqb l l'
+  | S _, NONone => true
+  | N _, NONone => true
+  | Q hs, NOStored f => stored_eqb f hs
   | _, _ => false
   end.
 
-Definition ev_step (e : ev) : step * obs :=
+Definition ev_step (e : ev) : nstep :=
   match e with
-  | V v b agg r => (SVote v (mkProp b agg), OVote r)
-  | C b c l => (SCommit b, OCommit c l)
-  | S b => (SStore b, OStore)
+  | V v b agg _ => NVote v (mkProp b agg)
+  | C b _ _ => NCommit b
+  | S b => NStore b
+  | N net => NNet net
+  | Q _ => NQuery
   end.
 
-Fixpoint check_run (rs : ruleset) (st : state) (evs : list ev) : bool :=
+Fixpoint check_run (rs : ruleset) (st : nstate) (evs : list ev) : bool :=
   match evs with
   | [] => true
   | e :: r =>
-      let '(s, o) := ev_step e in
-      let '(st', o') := do_step rs st s in
-      obs_eqb o o' && check_run rs st' r
+      let '(st', o) := do_nstep rs st (ev_step e) in
+      nobs_ok e o && check_run rs st' r
   end.
 
 Definition check_case (c : case) : bool :=
-  let '(rs, evs) := c in check_run rs init_state evs.
+  let '(rs, evs) := c in check_run rs init_nstate evs.
 
 Definition mismatches := mismatches_with check_case.
 
@@ -64,4 +76,13 @@ Example check_case_simple_off_chain :
   check_case (Simple,
     [C (B 2 1 1 1 0) None 1; C (B 3 1 5 2 1) None 1; C (B 4 3 3 3 5) None 2;
      C (B 5 4 6 4 3) None 3]) = true.
+Proof. vm_compute. reflexivity. Qed.
+
+(* the lock target B3 is missing: no vote; with B3 at a peer it is fetched, stored, and the
+   vote is cast *)
+Example check_case_lock_target :
+  check_case (Chained,
+    [C (B 2 1 1 1 0) None 1; C (B 3 2 2 2 1) None 1; S (B 5 4 4 4 3);
+     V 5 (B 6 5 5 5 4) None false; Q [1; 2; 3; 5];
+     N [B 4 3 3 3 2]; V 5 (B 6 5 5 5 4) None true; Q [1; 2; 3; 5; 4]]) = true.
 Proof. vm_compute. reflexivity. Qed.
